@@ -2,12 +2,13 @@
 package c08
 
 import (
-	"math"
 	"bytes"
 	"encoding/binary"
 	"fmt"
 	"io"
+	"math"
 	"testing"
+	"time"
 
 	"github.com/la5nta/wl2k-go/lzhuf"
 	"pgregory.net/rapid"
@@ -50,7 +51,23 @@ func run(c Case) (sig, msg string, o outcome) {
 	if len(c.Reads) == 0 {
 		c.Reads = []int{512}
 	}
-	psig, pmsg := harness.Catch(func() {
+	var psig, pmsg string
+	hung, kind := harness.Watch(60*time.Second, func() { psig, pmsg = harness.Catch(func() { runReader(c, &sig, &msg, &o) }) })
+	if hung {
+		harness.Record("hang:read-"+kind, c, fmt.Sprintf("constructing, reading and closing a Reader on a %d byte stream did not return within 60 s (%s): a call does not terminate", len(c.Stream), kind))
+		harness.ExitHung()
+	}
+	if psig != "" {
+		return psig, pmsg, o
+	}
+	return
+}
+
+func runReader(c Case, sigp, msgp *string, op *outcome) {
+	var sig, msg string
+	var o outcome
+	defer func() { *sigp, *msgp, *op = sig, msg, o }()
+	{
 		var in io.Reader = bytes.NewReader(c.Stream) // no pieces, no fault: the kind of source fbb uses (it has Len())
 		if len(c.Src) > 0 || c.Fault > 0 {
 			src := gen.SourceFor(c.Stream, c.Src)
@@ -143,11 +160,7 @@ func run(c Case) (sig, msg string, o outcome) {
 				sig, msg = "close-ok-bad-crc", fmt.Sprintf("Close returned nil although the header CRC %04x is not the CRC-16/XMODEM of size||data (%04x over all %d bytes; the decoder needed %d of them)", got, ref.CRC16(body), len(body), need)
 			}
 		}
-	})
-	if psig != "" {
-		return psig, pmsg, o
 	}
-	return
 }
 
 func firstDiff(a, b []byte) int {
